@@ -16,7 +16,7 @@ Tie (model layer, generated modules of lib/modcorpus.py):
        UNKNOWN EXTENSION ADDITIONS with arbitrary XML subtrees (lib/c03_xskip.py): documents of a newer version of an extensible
        SEQUENCE / SET / CHOICE written by an independent XER writer, read by the older version; the skip machine against the
        extracted model (Rt/XerSkip.v).
-Development switches (not used by bin/vcheck): C03_ONLY=xskip runs that part alone, C03_SKIP_PROOFS=1 skips the Coq build."""
+Development switches (not used by bin/vcheck): C03_ONLY=xskip / C03_ONLY=lenk run that part alone, C03_SKIP_PROOFS=1 skips the Coq build."""
 import sys, os
 sys.path.insert(0, os.path.join(os.path.dirname(os.path.abspath(__file__)), "..", "lib"))
 from vlib import *
@@ -33,6 +33,7 @@ import c03_regions as RG
 import c03_xval as XV
 import c05x_util as X5
 import c03_xskip as XS
+import c03_lenk as LK       # the NUMBER of length octets of a long form, 1..126 (lib/c03_lenk.py)
 
 F_CHAIN = "C03-ber-chain-mixed-lengths"
 
@@ -65,6 +66,7 @@ def ber_variants(plan, rng, tier, light=False):
             plan.reset()
             U.random_choices(plan, rng, seg_ok=False, indef_ok=(i % 2 == 0))
             emit("mix")
+        LK.plan_variants(plan, rng, tier, emit, light=True)
         plan.reset()
         seen, res = set(), []
         for v in out:
@@ -125,6 +127,7 @@ def ber_variants(plan, rng, tier, light=False):
                         for n in c:
                             n.lf = "i"
             emit("seg-all")
+    LK.plan_variants(plan, rng, tier, emit)
     plan.reset()
     seen, res = set(), []
     for v in out:
@@ -384,6 +387,14 @@ def main(tier):
         log("C03_ONLY=xskip: violations by kind: %s" % dict(collections.Counter(v["kind"] for v in run.violations)))
         log("C03_ONLY=xskip: by case family: %s" % dict(collections.Counter(str(v.get("case", "")).split("|")[-1].split(":")[0] for v in run.violations)))
         return run.finish("proof", (nthm, ndis))
+    if only == "lenk":
+        model = model_build()
+        ml8 = LK.module()
+        build_modules([ml8], tag="c03x", moddrv_extra=os.path.join(HARNESS, "moddrv_c03.inc"))
+        LK.run_part(run, model, ml8, Rng(run.seed * 1000003 + 41), tier, run_mod, correspond, build_leafdrv)
+        import collections
+        log("C03_ONLY=lenk: violations by kind: %s" % dict(collections.Counter(v["kind"] for v in run.violations)))
+        return run.finish("proof", (nthm, ndis))
     if not ok or ndis != nthm or gate:
         run.violation("proof:Properties_C03", {"what": "Coq development does not build or an obligation is open",
                                                "log_tail": (out if not ok else plog)[-2000:], "grep_gate": gate}, no_input=True)
@@ -403,7 +414,8 @@ def main(tier):
     ms5, mx6 = X5.string_module(), XV.module()
     # unknown extension additions in XER (lib/c03_xskip.py): the directed readers MK7
     mk7 = XS.module()
-    build_modules([sm, mt1, mt2, mo5, ms5, mx6, mk7], tag="c03x", moddrv_extra=os.path.join(HARNESS, "moddrv_c03.inc"))
+    ml8 = LK.module()
+    build_modules([sm, mt1, mt2, mo5, ms5, mx6, mk7, ml8], tag="c03x", moddrv_extra=os.path.join(HARNESS, "moddrv_c03.inc"))
     for m in (ms5, mx6, mk7):
         if not m.get("exe"):
             run.violation("build:module", {"what": "a hand-written module of string / number types was rejected or its code does not compile", "module": m["text"],
@@ -486,6 +498,8 @@ def main(tier):
     # XER documents of newer versions with arbitrary unknown subtrees: MK7 and the families the ext layer has built (a stream of its own)
     XS.run_part(run, model, mk7, captured.get("mods") or [], Rng(run.seed * 1000003 + 39), tier, run_mod, run_lines)
     log("C03: xer unknown additions %.1fs" % (time.time() - t0))
+    # the number of length octets of a long-form BER length, 1..126 (+ 127 reserved): ML8 and the leaf functions (a stream of its own)
+    LK.run_part(run, model, ml8, Rng(run.seed * 1000003 + 41), tier, run_mod, correspond, build_leafdrv)
     tb = ["Coq 8.16.1 kernel", "axioms under Print Assumptions: " + (", ".join(sorted(axioms)) or "none (Closed under the global context)"),
           "extraction: ExtrOcamlBasic only; OCaml 4.13.1", "lib/c03_util.py, lib/c03_xval.py, lib/c03_xskip.py, lib/c05x_util.py (independent variant generators and expected values), lib/modgen.py, harness/moddrv.c, gcc + ASan/UBSan"]
     return run.finish("proof", (nthm, ndis), trusted_base=tb,
